@@ -1044,6 +1044,17 @@ def k4(ck: Check) -> None:
                     its.append(c_.generators[0].iter)
     if not any(isinstance(it_, ast.Call) and callee_name(it_) == "valuation_iterator" and text(it_.func.value) == cb2 for it_ in its):
         probs.append("result is not read back from the final candidate set")
+    elif tail and isinstance(tail[-1].iter, ast.Call) and callee_name(tail[-1].iter) == "valuation_iterator":
+        # the read-back loop stores every state it visits in the list that is returned
+        rl = tail[-1]
+        rets_ = [r_ for r_ in noavoid_body if isinstance(r_, ast.Return) and isinstance(r_.value, ast.Name)]
+        res_ = rets_[-1].value.id if rets_ else None
+        unconditional = [st_ for st_ in rl.body if isinstance(st_, ast.Expr) and isinstance(st_.value, ast.Call)
+                         and isinstance(st_.value.func, ast.Attribute) and st_.value.func.attr == "append"
+                         and text(st_.value.func.value) == res_ and st_.value.args
+                         and any(isinstance(y, ast.Name) and y.id == text(rl.target) for y in ast.walk(st_.value.args[0]))]
+        if res_ is not None and not unconditional:
+            probs.append(f"the states of the final candidate set are visited but not all collected in the returned list `{res_}`")
     brk = [s for s in ast.walk(outer) if isinstance(s, ast.Break)]
     for b in brk:
         pc = fm.pc(fm.cfgn(b), numeric=set())
